@@ -42,6 +42,22 @@ def knobs_u():
     return k
 
 
+def knobs_q_classes():
+    k = knobs_q()
+    k.p_unknown_event = 0.0      # unknown names are handled differently by the hierarchical classes (outside C05/C09)
+    k.p_bad_dest = 0.0           # so are unregistered destinations (resolved before the exit callbacks there)
+    return k
+
+
+def run_on_class(d):
+    """the queued programs on the other synchronous classes (they share Machine._process)"""
+    from .c04 import get_cls, SYNC_CLASSES
+    pool = [c for c in SYNC_CLASSES[1:] if 'Graph' not in c]     # graph classes refuse to re-add a removed model
+    name = pool[int(flatcheck.fingerprint(d), 16) % len(pool)]
+    cls, kw = get_cls(name)
+    return flat.FlatRun(d, machine_cls=cls, extra_kwargs=kw)
+
+
 class C05(flatcheck.FlatCheck):
     prop = 'C05'
     manifest = dict(
@@ -56,6 +72,8 @@ class C05(flatcheck.FlatCheck):
                          quick=(16, 300), thorough=(64, 2000)),
         flatcheck.Stream('unqueued', knobs_u, prepare=add_marker, nontrivial=nontrivial,
                          quick=(16, 100), thorough=(32, 1000)),
+        flatcheck.Stream('queued-classes', knobs_q_classes, monitor=monitor, prepare=add_marker, nontrivial=nontrivial,
+                         run_factory=run_on_class, quick=(16, 100), thorough=(32, 800)),
     )
     rule = ('random callback programs: scripts in which callbacks at any stage trigger events on the same or other '
             'models (registered or not), call remove_model, or raise (Exception and BaseException), nested through '
